@@ -148,6 +148,10 @@ def run_one(ctx, a0, a, bc_arg, bc_arr, use_out=False):
     mo, mn = ctx.model.ints("label %s %s" % (enc_arr(np.array(fg).reshape(a0.shape)), enc_arr(bc_arr.astype(np.int64))))
     if gl != mo or int(n) != mn[0]:
         return Result(False, True, {"why": "label != model", "want": mo, "got": gl})
+    # the union-find model (parent array, path compression, as in _labeled.cpp; proved equal to the class-merging model)
+    uo, un = ctx.model.ints("uf_label %s %s" % (enc_arr(np.array(fg).reshape(a0.shape)), enc_arr(bc_arr.astype(np.int64))))
+    if gl != uo or int(n) != un[0]:
+        return Result(False, True, {"why": "label != union-find model", "want": uo, "got": gl})
     return None
 
 
